@@ -5,7 +5,7 @@ the simulator side is the composition of the proved leaf contracts over the real
 for all input values and all register states: equal outputs, equal next state under the register-wise
 correspondence, equal initial state, and that no compared value is x.  A counter-model is replayed on the REAL
 simulator and on the Verilog terms before it is reported."""
-import io, contextlib, time, random
+import io, contextlib, time, random, os
 from pvc import run, work, vcompare, vsem, netlist as N, leaf as L, ir
 from props import common
 
@@ -144,7 +144,11 @@ def main(tier, seed, only=None):
         if name in skip: continue
         cfgs = b.cfgs(tier)
         k = 3 if tier == 'quick' else 12
-        pick = cfgs[:1] + rnd.sample(cfgs, min(k - 1, len(cfgs)))
+        # deterministic stride through the configuration list (the committed baseline must not depend on the seed) ...
+        stride = max(1, len(cfgs) // k)
+        pick = cfgs[::stride][:k]
+        # ... plus one seeded extra configuration per block
+        if not os.environ.get('PVC_BASELINE'): pick = pick + rnd.sample(cfgs, 1)
         seen = set()
         for cfg in pick:
             t = work._cfg_tag(cfg)
